@@ -45,6 +45,9 @@ def configs(tier, seed):
         for scale in ((1.0,) if cls == "CenteredInstance" else (1.0, 0.5) if cls == "BottomUp" else (1.0, 0.5, 2.0)):
             for rgb in ((False, True) if (tier == "thorough" and scale == 1.0) else (False,)):
                 out.append(dict(kind="framework", cls=cls, scale=scale, is_rgb=rgb))
+    # user_instances_only=False with a predicted instance next to the user instances (all frameworks must honour the flag alike)
+    for cls in (("Centroid", "CenteredInstance") if tier == "quick" else ("Centroid", "CenteredInstance", "BottomUp")):
+        out.append(dict(kind="framework", cls=cls, scale=1.0, is_rgb=False, user_only=False))
     return out
 
 
@@ -193,7 +196,7 @@ def _run_block(cfg):
 STORE = {}
 
 
-def _make_labels(sym, single=False):
+def _make_labels(sym, single=False, with_pred=False):
     """2 frames, frame 0 with two user animals (one for single-instance models), frame 1 with one; 2 nodes; symbolic keypoints."""
     import numpy as np
     from symx.xf import XF
@@ -213,6 +216,8 @@ def _make_labels(sym, single=False):
     vid = fakes.FVideo(2, 8, 8)
     lf0 = fakes.FLF(vid, 0, [fakes.FInst(inst("A", env), True, "A")] + ([] if single is True else [fakes.FInst(inst("B", env), True, "B")]), fakes.ramp_image(8, 8, 1, 0))
     lf1 = fakes.FLF(vid, 1, [fakes.FInst(inst("C", env), True, "C")], fakes.ramp_image(8, 8, 1, 1))
+    if with_pred:  # a predicted (non-user) instance in frame 0
+        lf0 = fakes.FLF(vid, 0, [fakes.FInst(inst("A", env), True, "A"), fakes.FInst(inst("B", env), False, "B")], fakes.ramp_image(8, 8, 1, 0))
     if single == "one-frame":
         return fakes.FLabels([lf0], [vid])
     return fakes.FLabels([lf0, lf1], [vid])
@@ -220,7 +225,7 @@ def _make_labels(sym, single=False):
 
 def _cfgs(cfg):
     from omegaconf import OmegaConf
-    dc = OmegaConf.create({"user_instances_only": True, "preprocessing": {"is_rgb": cfg["is_rgb"], "max_height": None, "max_width": None, "scale": cfg["scale"], "crop_hw": [4, 4], "min_crop_size": None},
+    dc = OmegaConf.create({"user_instances_only": cfg.get("user_only", True), "preprocessing": {"is_rgb": cfg["is_rgb"], "max_height": None, "max_width": None, "scale": cfg["scale"], "crop_hw": [4, 4], "min_crop_size": None},
                            "use_augmentations_train": False})
     cm = OmegaConf.create({"sigma": 1.5, "output_stride": 2, "part_names": None, "anchor_part": 0})
     paf = OmegaConf.create({"sigma": 1.5, "output_stride": 4, "edges": None})
@@ -257,17 +262,18 @@ def _streaming_samples(cfg, labels):
     dc, cm, paf = _cfgs(cfg)
     cls = cfg["cls"]
     chunks = []
+    uo = cfg.get("user_only", True)
     mi = get_max_instances(labels)
     for lf in labels:
         x = (lf, 0)
         if cls == "BottomUp":
-            chunks.append(gc.bottomup_data_chunks(x, dc, mi, (8, 8), True, cfg["scale"]))
+            chunks.append(gc.bottomup_data_chunks(x, dc, mi, (8, 8), uo, cfg["scale"]))
         elif cls == "Centroid":
-            chunks.append(gc.centroid_data_chunks(x, dc, mi, 0, (8, 8), True, cfg["scale"]))
+            chunks.append(gc.centroid_data_chunks(x, dc, mi, 0, (8, 8), uo, cfg["scale"]))
         elif cls == "SingleInstance":
-            chunks.append(gc.single_instance_data_chunks(x, dc, (8, 8), True, cfg["scale"]))
+            chunks.append(gc.single_instance_data_chunks(x, dc, (8, 8), uo, cfg["scale"]))
         else:
-            res = gc.centered_instance_data_chunks(x, dc, mi, (4, 4), 0, (8, 8), True, cfg["scale"])
+            res = gc.centered_instance_data_chunks(x, dc, mi, (4, 4), 0, (8, 8), uo, cfg["scale"])
             chunks.extend(res if isinstance(res, list) else list(res))
     real_get = sd.ld.StreamingDataset.__getitem__
     sd.ld.StreamingDataset.__getitem__ = lambda self, i: dict(chunks[i])
@@ -336,11 +342,11 @@ def _run_framework(cfg):
         STORE.clear()
         with T.SymMode():
             try:
-                mem = _build(cfg, _make_labels(True, (True if cls == "SingleInstance" else "one-frame" if cls == "BottomUp" else False)), False)
+                mem = _build(cfg, _make_labels(True, (True if cls == "SingleInstance" else "one-frame" if cls == "BottomUp" else False), not cfg.get("user_only", True)), False)
                 mem_s = [mem[i] for i in range(len(mem))]
-                npz = _build(cfg, _make_labels(True, (True if cls == "SingleInstance" else "one-frame" if cls == "BottomUp" else False)), True)
+                npz = _build(cfg, _make_labels(True, (True if cls == "SingleInstance" else "one-frame" if cls == "BottomUp" else False), not cfg.get("user_only", True)), True)
                 npz_s = [npz[i] for i in range(len(npz))]
-                st_s = _streaming_samples(cfg, _make_labels(True, (True if cls == "SingleInstance" else "one-frame" if cls == "BottomUp" else False)))
+                st_s = _streaming_samples(cfg, _make_labels(True, (True if cls == "SingleInstance" else "one-frame" if cls == "BottomUp" else False), not cfg.get("user_only", True)))
             except Exception as e:  # noqa
                 if isinstance(e, xf.EngineGap):
                     raise
@@ -406,11 +412,11 @@ def replay(cfg, inputs, obligation):
             return store[str(f)]
     cd.np = NPX()
     try:
-        mem = _build(cfg, _make_labels(env, (True if cfg["cls"] == "SingleInstance" else "one-frame" if cfg["cls"] == "BottomUp" else False)), False)
+        mem = _build(cfg, _make_labels(env, (True if cfg["cls"] == "SingleInstance" else "one-frame" if cfg["cls"] == "BottomUp" else False), not cfg.get("user_only", True)), False)
         mem_s = [mem[i] for i in range(len(mem))]
-        npz = _build(cfg, _make_labels(env, (True if cfg["cls"] == "SingleInstance" else "one-frame" if cfg["cls"] == "BottomUp" else False)), True)
+        npz = _build(cfg, _make_labels(env, (True if cfg["cls"] == "SingleInstance" else "one-frame" if cfg["cls"] == "BottomUp" else False), not cfg.get("user_only", True)), True)
         npz_s = [npz[i] for i in range(len(npz))]
-        st_s = _streaming_samples(cfg, _make_labels(env, (True if cfg["cls"] == "SingleInstance" else "one-frame" if cfg["cls"] == "BottomUp" else False)))
+        st_s = _streaming_samples(cfg, _make_labels(env, (True if cfg["cls"] == "SingleInstance" else "one-frame" if cfg["cls"] == "BottomUp" else False), not cfg.get("user_only", True)))
     except Exception as e:
         return obligation.startswith("T-"), f"{type(e).__name__}: {e}"
     finally:
